@@ -130,6 +130,24 @@ def rule_who_may_write(ctx: Ctx, repo: Repo) -> None:
     logger.log only in handle_return (tracing.py)."""
     mod = repo.module(M)
     n_store = n_del = n_log = 0
+    tracer_methods = [f for f in mod.functions.values() if f.cls is not None and f.cls.name == "CallTracer"]
+
+    def only_from(fi, root: str, seen=None) -> bool:
+        """fi is `root` itself or a helper that is called from nowhere but (helpers of) `root`."""
+        seen = seen or set()
+        if fi.qualname == root:
+            return True
+        if fi.qualname in seen:
+            return False
+        seen.add(fi.qualname)
+        callers = [g for g in tracer_methods for c in ast.walk(g.node)
+                   if isinstance(c, ast.Call) and isinstance(c.func, ast.Attribute) and c.func.attr == fi.qualname.split(".")[-1] and dotted(c.func.value) == "self"]
+        return bool(callers) and all(only_from(g, root, seen) for g in callers)
+
+    class _Q:
+        def __init__(self, fi, root):
+            self.ok = only_from(fi, root)
+
     for fi in mod.functions.values():
         if fi.cls is None or fi.cls.name != "CallTracer":
             continue
@@ -142,7 +160,7 @@ def rule_who_may_write(ctx: Ctx, repo: Repo) -> None:
                 for t in tgts:
                     if isinstance(t, ast.Subscript) and dotted(t.value) == "self.traces":
                         n_store += 1
-                        ctx.check(fi.qualname == "CallTracer.handle_call", "R-C02.3", fi.fq,
+                        ctx.check(only_from(fi, "CallTracer.handle_call"), "R-C02.3", fi.fq,
                                   "self.traces entries are created only by handle_call", construct=norm(x), node=x)
                     if dotted(t) == "self.traces" and fi.qualname != "CallTracer.__init__":
                         ctx.violate("R-C02.3", fi.fq, norm(x), "self.traces is rebound outside __init__", node=x)
@@ -150,20 +168,20 @@ def rule_who_may_write(ctx: Ctx, repo: Repo) -> None:
                 for t in x.targets:
                     if isinstance(t, ast.Subscript) and dotted(t.value) == "self.traces":
                         n_del += 1
-                        ctx.check(fi.qualname == "CallTracer.handle_return", "R-C02.3", fi.fq,
+                        ctx.check(only_from(fi, "CallTracer.handle_return"), "R-C02.3", fi.fq,
                                   "self.traces entries are removed only by handle_return", construct=norm(x), node=x)
             if isinstance(x, ast.Call) and isinstance(x.func, ast.Attribute) and dotted(x.func.value) == "self.traces":
                 if x.func.attr in ("pop", "popitem", "clear"):
                     n_del += 1
-                    ctx.check(fi.qualname == "CallTracer.handle_return", "R-C02.3", fi.fq,
+                    ctx.check(only_from(fi, "CallTracer.handle_return"), "R-C02.3", fi.fq,
                               "self.traces entries are removed only by handle_return", construct=norm(x), node=x)
                 elif x.func.attr in ("setdefault", "update", "__setitem__"):
                     n_store += 1
-                    ctx.check(fi.qualname == "CallTracer.handle_call", "R-C02.3", fi.fq,
+                    ctx.check(only_from(fi, "CallTracer.handle_call"), "R-C02.3", fi.fq,
                               "self.traces entries are created only by handle_call", construct=norm(x), node=x)
             if isinstance(x, ast.Call) and isinstance(x.func, ast.Attribute) and x.func.attr == "log" and dotted(x.func.value) == "self.logger":
                 n_log += 1
-                ctx.check(fi.qualname == "CallTracer.handle_return", "R-C02.3", fi.fq,
+                ctx.check(only_from(fi, "CallTracer.handle_return"), "R-C02.3", fi.fq,
                           "the trace logger is invoked only by handle_return", construct=norm(x), node=x)
     ctx.floor("R-C02.3", "store into self.traces", n_store, 1)
     ctx.floor("R-C02.3", "removal from self.traces", n_del, 1)
